@@ -768,7 +768,10 @@ def gen_tx(rng: random.Random, tier: str):
             d = 3 if cls == "QuaternionRotation" else rng.choice([2, 3])
             groups = rng.choice([1, 2])
             c = {"cls": cls, "d": d, "groups": groups, "invert": rng.random() < 0.4,
-                 "as_parameter": rng.random() < 0.6, "index": rng.randrange(groups)}
+                 "as_parameter": rng.random() < 0.6, "index": rng.randrange(groups),
+                 # requires_grad history of the Parameter: None = untouched, "after" = frozen after the setter call,
+                 # "before" = frozen during the setter call and optimisable again afterwards
+                 "freeze": rng.choice([None, None, "after", "before"])}
             if cls == "EulerRotation":
                 c["order"] = rng.choice(ALL_TRIPLES + [None, "zxy"]) if d == 3 else None
                 n = 3 if d == 3 else 1
@@ -801,7 +804,12 @@ def make_tx(c):
         t = cls(g, params=True, **kw)
         setter = {"EulerRotation": "angles_", "QuaternionRotation": "quaternion_", "IsotropicScaling": "scales_",
                   "AnisotropicScaling": "scales_", "Shearing": "angles_", "Translation": "offset_"}[c["cls"]]
+        if c.get("freeze") == "before":
+            t.requires_grad_(False)
         getattr(t, setter)(v)
+        if c.get("freeze"):
+            # the stored numbers keep their meaning whether or not the parameters are currently optimised
+            t.requires_grad_(c["freeze"] == "before")
     else:
         t = cls(g, params=v, **kw)
     t.invert = c["invert"]
@@ -1257,7 +1265,7 @@ ORACLES = [
     Oracle("conversions", gen_conv, check_conv,
            doc="quaternion / angle-axis / matrix conversions agree as matrices with independent numpy references"),
     Oracle("transform_params", gen_txrt, check_txrt,
-           doc="x_() -> x() round trips, matrix() = tensor() as a map, matrix_(R).tensor() = R"),
+           doc="x_() -> x() round trips (also when requires_grad of the Parameter is switched off or on between setter and getter), matrix() = tensor() as a map, matrix_(R).tensor() = R"),
 ]
 
 
